@@ -232,5 +232,5 @@ fn run(case: &Case) -> Outcome {
 }
 
 pub fn parts() -> Vec<Box<dyn DynPart>> {
-    vec![Box::new(Gen::new(Local, 300_000, 20_000_000))]
+    vec![Box::new(Gen::new(Local, 1_000_000, 60_000_000))]
 }
